@@ -36,7 +36,11 @@ fn parse_state(t: &mut Toks) -> St {
   }
 }
 
-fn time(m: u64) -> SystemTime { SystemTime::UNIX_EPOCH + Duration::from_secs(1_600_000_000 + m) }
+// modification times: seconds after a base date; values >= 5e12 are MILLISECONDS (minus 5e12) after it, used for times that are not whole seconds
+fn time(m: u64) -> SystemTime {
+  if m >= 5_000_000_000_000 { SystemTime::UNIX_EPOCH + Duration::from_secs(1_600_000_000) + Duration::from_millis(m - 5_000_000_000_000) }
+  else { SystemTime::UNIX_EPOCH + Duration::from_secs(1_600_000_000 + m) }
+}
 
 fn clear(p: &Path) {
   if let Ok(md) = fs::symlink_metadata(p) {
